@@ -177,7 +177,11 @@ def run(repo="/repo", modules=None, function=None, keep=None, rlimit=None, threa
         if function:
             args += ["--verify-only-module", modules[0], "--verify-function", function]
         else:
-            for m in (modules or REAL_MODULES):
+            lem = []
+            ld = os.path.join(contracts_dir or weave.CONTRACTS, "lemmas")
+            if os.path.isdir(ld):
+                lem = ["verif_" + f[:-3] for f in sorted(os.listdir(ld)) if f.endswith(".rs")]
+            for m in (modules or (REAL_MODULES + lem)):
                 args += ["--verify-module", m]
             if not modules:
                 args += ["--verify-root"]
